@@ -63,6 +63,10 @@ pub enum FTy {
     NilU8FnsD,
     /// same type via `with = "module"` + `has_nil`
     NilU8With,
+    /// `Box<Option<u8>>`: `Box` forwards both `is_nil` and `nil`, the field is optional like `Option<u8>`
+    BoxOptU8,
+    /// `std::cell::Cell<Option<u8>>`: `Cell` forwards neither, the field is always written (NULL for `None`) and required
+    CellOptU8,
     /// derive_rt::Flex with `encode_with` + `cbor_len` only (array form on the wire; the type's own Decode reads it)
     FlexEncOnly,
     /// derive_rt::Flex with `decode_with` only (the type's own Encode writes the integer form)
@@ -189,7 +193,7 @@ impl GenVal {
 impl FTy {
     /// Can the field be absent (its type has a nil value)?
     pub fn nilable(&self) -> bool {
-        matches!(self, FTy::OptU8 | FTy::OptStr | FTy::OptBytesRef | FTy::OptByteVec | FTy::OptNested(_) | FTy::GenericOptNested(_) | FTy::GenericOptU8 | FTy::NilU8Fns | FTy::NilU8FnsB | FTy::NilU8FnsC | FTy::NilU8FnsD | FTy::NilU8With | FTy::OptIndefArr)
+        matches!(self, FTy::BoxOptU8 | FTy::OptU8 | FTy::OptStr | FTy::OptBytesRef | FTy::OptByteVec | FTy::OptNested(_) | FTy::GenericOptNested(_) | FTy::GenericOptU8 | FTy::NilU8Fns | FTy::NilU8FnsB | FTy::NilU8FnsC | FTy::NilU8FnsD | FTy::NilU8With | FTy::OptIndefArr)
     }
     pub fn has_lifetime(&self, all: &[Schema]) -> bool {
         match self {
@@ -236,7 +240,7 @@ pub fn field_values(ty: &FTy, all: &[Schema], salt: u8) -> Vec<GenVal> {
     let d = 1 + (salt % 20);
     match ty {
         FTy::U8 | FTy::GenericU8 | FTy::FlexEncOnly | FTy::FlexDecOnly => vec![GenVal::U8(d), GenVal::U8(0), GenVal::U8(23), GenVal::U8(24), GenVal::U8(255)],
-        FTy::OptU8 | FTy::GenericOptU8 | FTy::NilU8Fns | FTy::NilU8FnsB | FTy::NilU8FnsC | FTy::NilU8FnsD | FTy::NilU8With => vec![GenVal::some(GenVal::U8(d)), GenVal::none(), GenVal::some(GenVal::U8(24)), GenVal::some(GenVal::U8(255))],
+        FTy::OptU8 | FTy::BoxOptU8 | FTy::CellOptU8 | FTy::GenericOptU8 | FTy::NilU8Fns | FTy::NilU8FnsB | FTy::NilU8FnsC | FTy::NilU8FnsD | FTy::NilU8With => vec![GenVal::some(GenVal::U8(d)), GenVal::none(), GenVal::some(GenVal::U8(24)), GenVal::some(GenVal::U8(255))],
         FTy::Str | FTy::StrRef | FTy::CowStr => vec![GenVal::Str(format!("s{}", d)), GenVal::Str(String::new()), GenVal::Str("x".repeat(24))],
         FTy::OptStr => vec![GenVal::some(GenVal::Str(format!("s{}", d))), GenVal::none(), GenVal::some(GenVal::Str(String::new()))],
         FTy::BytesVec | FTy::CowBytes | FTy::ByteSliceRef => vec![GenVal::Bytes(vec![d]), GenVal::Bytes(vec![]), GenVal::Bytes(vec![0x99; 24]), GenVal::Bytes(vec![0x18, 0xff])],
@@ -361,7 +365,7 @@ fn encode_field_value(ty: &FTy, all: &[Schema], v: &GenVal) -> Item {
         (_, GenVal::Opt(None)) => NULL,
         (FTy::U8 | FTy::GenericU8 | FTy::FlexDecOnly, GenVal::U8(x)) => Item::uint(*x as u64),
         (FTy::FlexEncOnly, GenVal::U8(x)) => Item::array(vec![Item::uint(*x as u64)]),
-        (FTy::OptU8 | FTy::GenericOptU8 | FTy::NilU8Fns | FTy::NilU8FnsB | FTy::NilU8FnsC | FTy::NilU8FnsD | FTy::NilU8With, GenVal::Opt(Some(x))) => Item::uint(x.u8() as u64),
+        (FTy::OptU8 | FTy::BoxOptU8 | FTy::CellOptU8 | FTy::GenericOptU8 | FTy::NilU8Fns | FTy::NilU8FnsB | FTy::NilU8FnsC | FTy::NilU8FnsD | FTy::NilU8With, GenVal::Opt(Some(x))) => Item::uint(x.u8() as u64),
         (FTy::Str | FTy::StrRef | FTy::CowStr, GenVal::Str(s)) => Item::text(s),
         (FTy::OptStr, GenVal::Opt(Some(x))) => Item::text(x.str()),
         (FTy::BytesVec | FTy::CowBytes | FTy::ByteSliceRef | FTy::ByteArr4 | FTy::ByteArrayT, GenVal::Bytes(b)) => Item::bytes(b),
@@ -380,11 +384,14 @@ fn encode_fields(fields: &[FieldS], enc: Enc, all: &[Schema], vals: &[GenVal]) -
     fs.sort_by_key(|(f, _)| f.idx);
     match enc {
         Enc::Map => {
-            let entries: Vec<(Item, Item)> = fs.iter().filter(|(_, v)| !is_nil(v)).map(|(f, v)| (Item::uint(f.idx as u64), tagged(f.tag, encode_field_value(&f.ty, all, v)))).collect();
+            // (a None of a type that has no nil value - Cell<Option<_>> - is a present field holding NULL)
+            let is_nil = |f: &FieldS, v: &GenVal| f.ty.nilable() && is_nil(v);
+            let entries: Vec<(Item, Item)> = fs.iter().filter(|(f, v)| !is_nil(f, v)).map(|(f, v)| (Item::uint(f.idx as u64), tagged(f.tag, encode_field_value(&f.ty, all, v)))).collect();
             Item::map(entries)
         }
         Enc::Array => {
-            let max = fs.iter().filter(|(_, v)| !is_nil(v)).map(|(f, _)| f.idx).max();
+            let is_nil = |f: &FieldS, v: &GenVal| f.ty.nilable() && is_nil(v);
+            let max = fs.iter().filter(|(f, v)| !is_nil(f, v)).map(|(f, _)| f.idx).max();
             match max {
                 None => Item::array(vec![]),
                 Some(m) => {
@@ -522,7 +529,7 @@ fn decode_field_value(ty: &FTy, all: &[Schema], i: &Item) -> R {
         FTy::IndefArr => u8_array_of(i).map(GenVal::Bytes),
         FTy::Nested(j) => decode_inner(&all[*j], all, i),
         _ if *i == NULL => Ok(GenVal::none()),
-        FTy::OptU8 | FTy::GenericOptU8 | FTy::NilU8Fns | FTy::NilU8FnsB | FTy::NilU8FnsC | FTy::NilU8FnsD | FTy::NilU8With => opt(u8_of(i).map(GenVal::U8)),
+        FTy::OptU8 | FTy::BoxOptU8 | FTy::CellOptU8 | FTy::GenericOptU8 | FTy::NilU8Fns | FTy::NilU8FnsB | FTy::NilU8FnsC | FTy::NilU8FnsD | FTy::NilU8With => opt(u8_of(i).map(GenVal::U8)),
         FTy::OptStr => opt(text_of(i).map(GenVal::Str)),
         FTy::OptBytesRef | FTy::OptByteVec => opt(bytes_of(i).map(GenVal::Bytes)),
         FTy::OptIndefArr => opt(u8_array_of(i).map(GenVal::Bytes)),
@@ -1005,7 +1012,7 @@ fn enumerate_schemas_base(thorough: bool) -> Vec<Schema> {
 
     // ---- G-type: every field type in every container position
     let tys: Vec<FTy> = vec![
-        FTy::U8, FTy::OptU8, FTy::Str, FTy::OptStr, FTy::StrRef, FTy::CowStr, FTy::BytesVec, FTy::OptBytesRef, FTy::ByteArr4, FTy::CowBytes, FTy::OptByteVec, FTy::ByteSliceRef, FTy::ByteArrayT, FTy::GenericU8, FTy::GenericOptU8, FTy::NilU8Fns, FTy::NilU8FnsB, FTy::NilU8FnsC, FTy::NilU8FnsD, FTy::NilU8With, FTy::IndefArr, FTy::OptIndefArr, FTy::FlexEncOnly, FTy::FlexDecOnly,
+        FTy::U8, FTy::OptU8, FTy::BoxOptU8, FTy::CellOptU8, FTy::Str, FTy::OptStr, FTy::StrRef, FTy::CowStr, FTy::BytesVec, FTy::OptBytesRef, FTy::ByteArr4, FTy::CowBytes, FTy::OptByteVec, FTy::ByteSliceRef, FTy::ByteArrayT, FTy::GenericU8, FTy::GenericOptU8, FTy::NilU8Fns, FTy::NilU8FnsB, FTy::NilU8FnsC, FTy::NilU8FnsD, FTy::NilU8With, FTy::IndefArr, FTy::OptIndefArr, FTy::FlexEncOnly, FTy::FlexDecOnly,
         FTy::Nested(h_arr), FTy::OptNested(h_arr), FTy::Nested(h_map), FTy::OptNested(h_map), FTy::Nested(h_enum), FTy::OptNested(h_enum), FTy::Nested(h_ionly), FTy::OptNested(h_ionly), FTy::Nested(h_life), FTy::OptNested(h_tagged),
         FTy::OptNested(h_allopt_map),
     ];
@@ -1093,6 +1100,8 @@ fn ty_src(ty: &FTy, all: &[Schema]) -> String {
     match ty {
         FTy::U8 => "u8".into(),
         FTy::OptU8 => "Option<u8>".into(),
+        FTy::BoxOptU8 => "Box<Option<u8>>".into(),
+        FTy::CellOptU8 => "std::cell::Cell<Option<u8>>".into(),
         FTy::Str => "String".into(),
         FTy::OptStr => "Option<String>".into(),
         FTy::StrRef => "&'a str".into(),
@@ -1221,6 +1230,8 @@ fn make_expr(f: &FieldS, x: &str) -> String {
         FTy::U8 | FTy::GenericU8 => format!("{}.u8()", x),
         FTy::FlexEncOnly | FTy::FlexDecOnly => format!("derive_rt::Flex({}.u8())", x),
         FTy::OptU8 | FTy::GenericOptU8 => format!("{}.opt().map(|y| y.u8())", x),
+        FTy::BoxOptU8 => format!("Box::new({}.opt().map(|y| y.u8()))", x),
+        FTy::CellOptU8 => format!("std::cell::Cell::new({}.opt().map(|y| y.u8()))", x),
         FTy::Str => format!("{}.str().to_string()", x),
         FTy::OptStr => format!("{}.opt().map(|y| y.str().to_string())", x),
         FTy::StrRef => format!("{}.str()", x),
@@ -1249,6 +1260,8 @@ fn view_expr(f: &FieldS, t: &str) -> String {
         FTy::U8 | FTy::GenericU8 => format!("GenVal::U8(*{})", t),
         FTy::FlexEncOnly | FTy::FlexDecOnly => format!("GenVal::U8({}.0)", t),
         FTy::OptU8 | FTy::GenericOptU8 => format!("GenVal::Opt({}.map(|y| Box::new(GenVal::U8(y))))", t),
+        FTy::BoxOptU8 => format!("GenVal::Opt((**{}).map(|y| Box::new(GenVal::U8(y))))", t),
+        FTy::CellOptU8 => format!("GenVal::Opt({}.get().map(|y| Box::new(GenVal::U8(y))))", t),
         FTy::Str | FTy::StrRef | FTy::CowStr => format!("GenVal::Str({}.to_string())", t),
         FTy::OptStr => format!("GenVal::Opt({}.as_ref().map(|y| Box::new(GenVal::Str(y.to_string()))))", t),
         FTy::BytesVec => format!("GenVal::Bytes({}.to_vec())", t),
